@@ -11,7 +11,7 @@ typedef enum { FB_FREE = 0, FB_READY, FB_BLOCKED, FB_IDLEWAIT, FB_DONE } fb_stat
 typedef struct fiber {
 	int          id;
 	fb_state_t   st;
-	ucontext_t   ctx;
+	void        *sp;            /* saved stack pointer (own context switch: no signal-mask system calls) */
 	unsigned char *stack;       /* usable area (above the guard page) */
 	size_t       stack_sz;
 	int          stack_slot;
@@ -68,7 +68,7 @@ typedef struct sim_state {
 	int       nfb;
 	int       cur;               /* running fiber or -1 (main ctx) */
 	int       root;
-	ucontext_t main_ctx;
+	void     *main_sp;
 	int       in_loop;
 
 	/* schedule */
